@@ -45,7 +45,15 @@ func runBackend(ctx context.Context, b backend, query string, timeoutS int) solv
 	_ = cmd.Run()
 	ms := time.Since(start).Milliseconds()
 	text := out.String()
-	first := strings.TrimSpace(strings.SplitN(text, "\n", 2)[0])
+	first := ""
+	for _, ln := range strings.Split(text, "\n") {
+		ln = strings.TrimSpace(ln)
+		if ln == "" || strings.HasPrefix(ln, "WARNING") || strings.HasPrefix(ln, "(warning") {
+			continue
+		}
+		first = ln
+		break
+	}
 	res := solveResult{backend: b.name, millis: ms, output: text}
 	switch {
 	case first == "unsat":
